@@ -251,9 +251,21 @@ def run(chk):
         for _ in range(budget):
             cases.append(([[rnd.choice(ent) for _ in range(tc)] for _ in range(tr)],
                           [[rnd.choice(ent) for _ in range(sc_)] for _ in range(sr)]))
+    # nearly parallel rows with large coefficients (a flattened tile with row pitch c against a padded pitch c +- 1):
+    # the angle between the row spaces is ~1/c^2, where a tolerance on the wrong quantity accepts a non-match
+    for c in (15, 16, 64, 100, 128, 1024, 4096) if quick else (7, 15, 16, 31, 64, 100, 128, 255, 512, 1000, 1024, 2048, 4096):
+        for d in (-1, 0, 1, 2):
+            cases.append(([[c, 1]], [[c + d, 1]]))
+            cases.append(([[c, 1]], [[2 * (c + d), 2]]))
+            cases.append(([[c, 1, 0], [0, 0, 1]], [[c + d, 1, 0], [0, 0, 1]]))
+            cases.append(([[c, 1, 0], [0, 0, 1]], [[c + d, 1, 1], [0, 0, 1]]))  # same span iff d == 0
+            if c <= 128:  # coefficients <= 2^14; beyond ~2^20 the float tolerance of the matcher itself gives way (outside)
+                cases.append(([[c * c, c, 1]], [[c * c + d, c, 1]]))
+            cases.append(([[1, 0, 0], [0, c, 1]], [[1, 0, 0], [0, c + d, 1]]))
     if only in (None, "matches"):
         chk.add_results("matches_vs_exact_oracle", pmap(case_matches, cases, chunks=16))
     chk.bounds = dict(families=[f[0] for f in fams], bounds="symbolic >= 1 unbounded", predicate_shapes="rows<=2, temporal<=3, spatial<=2, fully symbolic entries",
-                      matches="entries in {-1,0,1,2}, shapes <= 3x3, sampled by VERIF_SEED")
-    chk.outside = ["TemplatePattern.matches for all matrices (floating point)", "is_output_channel_stationary (not used by the pass)",
+                      matches="entries in {-1,0,1,2}, shapes <= 3x3, sampled by VERIF_SEED; nearly parallel rows with pitch c vs c+d, c <= 4096")
+    chk.outside = ["TemplatePattern.matches for all matrices (floating point); coefficients above 2^14: observed on the unchanged tree that rows "
+                   "(2^20, 2^10, 1) and (2^20 - 1, 2^10, 1) are taken for the same subspace (angle 1e-9 is below the matcher's tolerance)", "is_output_channel_stationary (not used by the pass)",
                    "symbolic element sizes"]
